@@ -470,6 +470,9 @@ theorem Lower.same {f' f : Frame} (h : Lower f' f) :
   obtain ⟨m, hm, rfl⟩ := h
   exact ⟨rfl, rfl, rfl, rfl, rfl, rfl, rfl, rfl, rfl, hm⟩
 
+theorem Lower.inh {f' f : Frame} (h : Lower f' f) : f'.inhCpu = f.inhCpu ∧ f'.inhMem = f.inhMem := by
+  obtain ⟨m, _, rfl⟩ := h; exact ⟨rfl, rfl⟩
+
 theorem Lower.live {f' f : Frame} (h : Lower f' f) : f'.live = f.live := by
   unfold Frame.live; rw [h.same.2.2.2.1]
 
@@ -1324,5 +1327,28 @@ theorem all_limited_root (c : Frame) (ps : List Frame) (h : limitedPrefix (c :: 
     · rw [limitedPrefix_cons_limited c _ h0] at h
       injection h with _ h
       exact ih p h
+
+/-! ### the inherited-limit flags (52f8e49) are set at push and never change -/
+
+theorem requireCPU_inh (f : Frame) (n : BitVec 64) :
+    (f.requireCPU n).1.inhCpu = f.inhCpu ∧ (f.requireCPU n).1.inhMem = f.inhMem := by
+  unfold Frame.requireCPU Frame.kill; simp only; repeat' split
+  all_goals exact ⟨rfl, rfl⟩
+
+theorem requireMem_inh (f : Frame) (n : BitVec 64) :
+    (f.requireMem n).1.inhCpu = f.inhCpu ∧ (f.requireMem n).1.inhMem = f.inhMem := by
+  unfold Frame.requireMem Frame.kill; simp only; repeat' split
+  all_goals exact ⟨rfl, rfl⟩
+
+theorem setStop_inh (f : Frame) (l : BitVec 8) :
+    (f.setStop l).1.inhCpu = f.inhCpu ∧ (f.setStop l).1.inhMem = f.inhMem := by
+  unfold Frame.setStop Frame.kill; simp only; split <;> exact ⟨rfl, rfl⟩
+
+theorem charged_inh (p c : Frame) : (charged p c).inhCpu = p.inhCpu ∧ (charged p c).inhMem = p.inhMem := by
+  unfold charged chargeMem chargeCpu
+  split <;> split <;> exact ⟨rfl, rfl⟩
+
+theorem popped_inh (f : Frame) : f.popped.inhCpu = f.inhCpu ∧ f.popped.inhMem = f.inhMem := by
+  unfold Frame.popped; split <;> exact ⟨rfl, rfl⟩
 
 end GoluaVerif.Proofs.Ctx
